@@ -49,6 +49,12 @@ func verifNoEval(name string) bool {
 	return false
 }
 
+// verifHeavy: single-signature functions whose evaluation is expensive under the engine (unicode
+// tables, strings.Replace, float-to-time conversion); evaluated only with HEAVY=1.
+func verifHeavy(name string, ov int) bool {
+	return name == "upper" || name == "lower" || name == "replace" || (name == "time_from_unix" && ov == 1)
+}
+
 func verifListOf(el octosql.Type) octosql.Type {
 	return octosql.Type{TypeID: octosql.TypeIDList, List: struct{ Element *octosql.Type }{Element: &el}}
 }
@@ -134,12 +140,32 @@ func VerifC26Repopulate() {
 	}
 	d := ds[ov]
 
+	// argument types: the declared ones, or sample types accepted by the TypeFn
+	types := d.ArgumentTypes
+	if d.TypeFn != nil {
+		samples := verifSampleTypes(name, d)
+		zzverif.Assert(len(samples) > 0, "typefn-overload-has-a-sample")
+		types = samples[zzverif.Choice("sample", len(samples))]
+	}
+	args := make([]physical.Expression, len(types))
+	for i := range types {
+		args[i] = physical.Expression{
+			Type:           types[i],
+			ExpressionType: physical.ExpressionTypeVariable,
+			Variable:       &physical.Variable{Name: fmt.Sprintf("t.a%d", i)},
+		}
+	}
+	outType := d.OutputType
+	if d.TypeFn != nil {
+		outType, _ = d.TypeFn(types)
+	}
+
 	sent := d
 	sent.TypeFn, sent.Function = nil, nil
 	expr := physical.Expression{
-		Type:           d.OutputType,
+		Type:           outType,
 		ExpressionType: physical.ExpressionTypeFunctionCall,
-		FunctionCall:   &physical.FunctionCall{Name: name, FunctionDescriptor: sent},
+		FunctionCall:   &physical.FunctionCall{Name: name, Arguments: args, FunctionDescriptor: sent},
 	}
 	out, ok := RepopulatePhysicalExpressionFunctions(expr)
 	zzverif.Reach("repopulated")
@@ -150,13 +176,10 @@ func VerifC26Repopulate() {
 	if verifNoEval(name) {
 		return
 	}
-
-	types := d.ArgumentTypes
-	if d.TypeFn != nil {
-		samples := verifSampleTypes(name, d)
-		zzverif.Assert(len(samples) > 0, "typefn-overload-has-a-sample")
-		types = samples[zzverif.Choice("sample", len(samples))]
+	if zzverif.Param("HEAVY") == 0 && verifHeavy(name, ov) {
+		return
 	}
+
 	values := make([]octosql.Value, len(types))
 	for i := range types {
 		values[i] = vx.ValueOfType(fmt.Sprintf("a%d", i), types[i], zzverif.Param("E"), zzverif.Param("S"))
